@@ -59,6 +59,24 @@ STATEMENTS = [
 ]
 
 
+ALL_SLOT_EXPRS = [
+    '? + ? * ?', 'f(?, ?, ?)', 'f(g(?, ?), h(?), ?)', '? between ? and ?', '? in (?, ?, ?)', '? not in (?, ?)',
+    'case when a = ? then ? when a = ? then ? else ? end', 'case ? when ? then ? when ? then ? else ? end',
+    'case when ? then ? when ? then ? when ? then ? end', 'case when a = ? then case when b = ? then ? else ? end else ? end',
+    'cast(? as int) + ?', '? is null or ? is not null', 'coalesce(?, case when ? = ? then ? end, ?)', '-? + ?',
+    '(? = ?) and not (? > ?) or ? < ?', '? like ? or ? not like ?', 'a -> ? ->> ?', 'not (? in (?, ?) and ? between ? and ?)',
+    'count(distinct ?) + sum(?)', 'sum(?) over (partition by ?, ? order by ?, ?)', '(?, ?) = (?, ?)', '? || ? || ?',
+]
+ALL_SLOT_CLAUSES = [
+    'select {E} from int1.t', 'select {E} as x, {E} as y from int1.t where b = ?', 'select a from int1.t where {E}',
+    'select a from int1.t where ? = ({E}) and c = ?', 'select a from int1.t group by a having {E}',
+    'select a from int1.t order by {E}', 'select a from int1.t group by {E}',
+    'select * from int1.t1 join int2.t2 on {E}', 'select * from int1.t1 join int1.t2 on {E} where {E}',
+    'update int1.t set a = {E} where c = ?', 'delete from int1.t where {E}',
+    'insert into int1.t (a, b) values ({E}, ?), (?, {E})', 'select a from int1.t where b in (select c from int2.t2 where {E}) and {E}',
+]
+
+
 def inline(sql, vals):
     it = iter(vals)
     return re.sub(r'\?', lambda m: str(next(it)), sql)
@@ -187,6 +205,20 @@ def run(ctx):
                      'select a from int1.t where z = ? and (%s) and y = ?'):
             gen.append(tmpl % cond)
     ctx.cov['boolean_shapes'] = len(shapes)
+    # a placeholder in EVERY slot of every expression form, in every clause that takes an expression
+    n_all = 0
+    for e in ALL_SLOT_EXPRS:
+        for tmpl in ALL_SLOT_CLAUSES:
+            sql = tmpl.replace('{E}', e)
+            try:
+                parse_sql(sql, 'mindsdb')
+            except Exception:   # noqa
+                continue
+            gen.append(sql)
+            n_all += 1
+    ctx.cov['all_slot_statements'] = n_all
+    if n_all < len(ALL_SLOT_EXPRS) * 3:
+        raise MachineryError('most all-slot statements are rejected by the parser (%d accepted)' % n_all)
     numbering = STATEMENTS + gen
     traces = []
     for sql in numbering:
